@@ -2,6 +2,12 @@
 
 /// The power function of the build under test (std, libm or micromath back end), called
 /// directly so that powf-dependent outputs can be judged per build.
+/// `backend_powf` under a panic guard: None when the back end itself panics on these arguments
+/// (micromath does for some special values once overflow checks are compiled in). What rrtk
+/// computes through the same back end is then not judged.
+pub fn backend_powf_checked(x: f32, y: f32) -> Option<f32> {
+    crate::mc::guard(|| backend_powf(x, y)).ok()
+}
 pub fn backend_powf(x: f32, y: f32) -> f32 {
     #[cfg(feature = "std")]
     {
